@@ -75,8 +75,13 @@ class CompStore:
         return [(n, r()) for n, r in self.refs.items() if r() is not None]
 
 
+_ALIAS = {}      # model id -> the (falsy) Python identifier standing for it in the current behaviour, see reset()
+
+
 def pyid(e):
     """Model entity ids are integers; ids >= 100 stand for non-integer hashables."""
+    if e in _ALIAS:
+        return _ALIAS[e]
     if e >= 200:
         return ('t', e)
     if e >= 100:
@@ -85,6 +90,9 @@ def pyid(e):
 
 
 def modelid(x):
+    for k, v in _ALIAS.items():
+        if type(x) is type(v) and x == v:
+            return k
     if isinstance(x, tuple):
         return x[1]
     if isinstance(x, str):
@@ -121,6 +129,12 @@ class WorldAdapter:
         env.reentrant = None
         env.w = desper.World()
         self.counter += 1
+        # an identifier is any hashable: in half of the behaviours the highest user-supplied id (one the automatic
+        # counter never reaches) is a FALSY one - 0 or '' - which must behave like any other
+        _ALIAS.clear()
+        top = max(K['Ids']) if K['Ids'] else 0
+        if top > K['MaxAuto'] and self.counter % 4 in (1, 3):
+            _ALIAS[top] = 0 if self.counter % 4 == 1 else ''
         self.mode = self.modes[self.counter % len(self.modes)]
         controllers = self.controllers
 
